@@ -1,7 +1,17 @@
 // C13 correspondence harness: dominance / non-dominated sorting / hypervolume / contributions /
 // 2-D subset selection of /repo on the point sets of a case file; prints one canonical line per
 // input line (same protocol as ocaml/c13_driver.ml).
+#include <shark/LinAlg/Base.h>
 #include <shark/Algorithms/DirectSearch/Operators/Domination/NonDominatedSort.h>
+#include <algorithm>
+#include <vector>
+#include <map>
+// limitSet is a private member of HypervolumeCalculatorMDWFG; the harness prints the limit set of the
+// first point so that the model's limit_set is compared with the code directly (column lim=).
+// Every header the WFG header includes is included above, so only that class is affected.
+#define private public
+#include <shark/Algorithms/DirectSearch/Operators/Hypervolume/HypervolumeCalculatorMDWFG.h>
+#undef private
 #include <shark/Algorithms/DirectSearch/Operators/Hypervolume/HypervolumeCalculator.h>
 #include <shark/Algorithms/DirectSearch/Operators/Hypervolume/HypervolumeContribution.h>
 #include <shark/Algorithms/DirectSearch/Operators/Hypervolume/HypervolumeSubsetSelection2D.h>
@@ -70,7 +80,21 @@ int main(int argc, char** argv) {
 				std::string hoy = d >= 3 ? guard([&] { HypervolumeCalculatorMDHOY hv; return num(hv(pts, ref)); }) : "-";
 				// WFG is exponential in the number of dominated points: explicit call only for small sets
 				std::string wfg = n <= 24 ? guard([&] { HypervolumeCalculatorMDWFG hv; return num(hv(pts, ref)); }) : "-";
-				std::cout << "H disp=" << disp << " a2=" << a2 << " a3=" << a3 << " hoy=" << hoy << " wfg=" << wfg << "\n";
+				std::string lim = (n >= 2 && n <= 24) ? guard([&] {
+					HypervolumeCalculatorMDWFG hv;
+					std::vector<RealVector> ps(pts.begin() + 1, pts.end());
+					hv.limitSet(ps, pts[0]);
+					std::vector<std::vector<double> > rows;
+					for (auto const& q : ps) rows.push_back(std::vector<double>(q.begin(), q.end()));
+					std::sort(rows.begin(), rows.end());
+					std::ostringstream o;
+					for (std::size_t i = 0; i < rows.size(); ++i) {
+						if (i) o << "/";
+						for (std::size_t j = 0; j < rows[i].size(); ++j) { if (j) o << ","; o << num(rows[i][j]); }
+					}
+					if (rows.empty()) o << "none";
+					return o.str(); }) : "-";
+				std::cout << "H disp=" << disp << " a2=" << a2 << " a3=" << a3 << " hoy=" << hoy << " wfg=" << wfg << " lim=" << lim << "\n";
 			} else if (query == "K") {
 				if (n == 0) { std::cout << "K empty\n"; continue; }
 				HypervolumeContribution c;
